@@ -166,6 +166,7 @@ func runJob(l *Loaded, job Job) (res JobResult) {
 		ip.seeded["strconv.ErrRange"] = ip.errRange
 		ip.seeded["strconv.ErrSyntax"] = ip.errSyntax
 		ip.alloc.total = Const(64, 0)
+		ex.render = ip.renderObs
 		// package initialisers of the repository packages (and the harness runtime)
 		for path, p := range l.pkgs {
 			if strings.HasPrefix(path, modPath) {
